@@ -535,9 +535,6 @@ func runC14(cfg *vh.Config) error {
 		for i, o := range outs {
 			res.Count("print_job")
 			in := map[string]any{"descriptor": jobs[i].Name, "prints": reps}
-			if i == 0 {
-				in["printed_once"] = o.First
-			}
 			if o.Pan != "" {
 				res.Fail(vh.Failure{Case: caseNo, Stream: "print", Sig: "C14 printer fails: " + errClass(o.Pan), Clause: "printed text", Input: in, Got: o.Pan})
 			} else if o.Diff != "" {
